@@ -185,7 +185,7 @@ Definition w_rem_no_operand : xml := x_eq (m_apply "rem" []).
 Definition w_min_one_operand : xml := x_eq (m_apply "min" [m_ci "y"]).
 (** DESIGN #33 (2): diff applied to something that is not a ci *)
 Definition w_diff_non_ci : xml :=
-  m_math [m_eqn (m_apply "diff" [m_el "bvar" [m_ci "t"]; m_apply "plus" [m_ci "x"; m_ci "y"]]) (m_ci "y")].
+  m_math [m_eqn (m_apply "diff" [m_el "bvar" [m_ci "t"]; m_cn "1"]) (m_ci "y")].
 (** DESIGN #33 (3): a bare ci directly under math *)
 Definition w_bare_ci : xml := m_math [m_ci "x"].
 (** DESIGN #33 (4): an empty piecewise *)
